@@ -80,6 +80,12 @@ func genC19(coop bool) func(t *rapid.T) c19Case {
 			// "wait for as long as it takes": the largest duration there is (0 would mean "library default" here)
 			c.Stack.TimeoutNs = rapid.SampledFrom([]int64{math.MaxInt64, math.MaxInt64 - 1, math.MaxInt64 / 2, int64(250 * 365 * 24 * time.Hour)}).Draw(t, "foreverNs")
 		}
+		c.Stack.FmtLog = rapid.IntRange(0, 2).Draw(t, "fmtLog") == 0
+		if !c.Overload && rapid.IntRange(0, 5).Draw(t, "negTimeout") == 0 {
+			// a negative timeout: the constructors document it as "use the default". Its value is not assumed: only a
+			// refusal at the very instant of arrival is judged (there is room in the backlog by construction)
+			c.Stack.TimeoutMs, c.Stack.TimeoutNs = 0, -int64(rapid.SampledFrom([]int{1, 1000, 1_000_000, 1_000_000_000}).Draw(t, "negNs"))
+		}
 		if coop {
 			c.Yields = yieldList(rapid.SliceOfN(rapid.SampledFrom([]uint8{0, 0, 1, 1, 2, 3}), 0, 60).Draw(t, "yields"))
 		}
@@ -196,6 +202,8 @@ func runC19InBubble(c c19Case) (out kit.Outcome) {
 				}
 				o := kit.Viol(kind+":not-served", "caller %d (arrived +%dms) is still blocked at +%v, after every earlier holder has completed (sum of hold times %dms, free capacity %s)", i, spec.AtMs, w.now(), sum, free)
 				viol = &o
+			case !s.OK && c.Stack.TimeoutNs < 0 && s.RetAt != s.Arrived:
+				// the library's default timeout, whatever it is, ran out: nothing is claimed
 			case !s.OK:
 				o := kit.Viol(kind+":refused", "caller %d (arrived +%dms) was refused at +%v although callers (%d) <= limit+backlog (%d+%d) and the backlog timeout (%dms) had not elapsed", i, spec.AtMs, s.RetAt, len(c.Callers), limit, c.Stack.Backlog, c.Stack.TimeoutMs)
 				viol = &o
@@ -357,8 +365,8 @@ func runC19InBubble(c c19Case) (out kit.Outcome) {
 		time.Sleep(time.Duration(len(wave)+5) * time.Millisecond)
 		synctest.Wait()
 		for i, cl := range wave {
-			if c.Overload {
-				break // with a short backlog timeout some of the wave may legitimately time out
+			if c.Overload || c.Stack.TimeoutNs < 0 {
+				break // with a short backlog timeout (or the library's default, whatever it is) some of the wave may legitimately time out
 			}
 			if !cl.Done || !cl.OK {
 				w.unwind(c.Stack.unwindWait())
